@@ -53,6 +53,10 @@ BoolFailing(ev) ==
         \cup (IF Abs(ev.big[4] - (ev.big[5] - ev.big[2])) <= 2 THEN {} ELSE {<<"big_scale_area_not">>})
         \cup (IF Abs(ev.big[3] - (ev.big[1] - ev.big[2])) <= 2 THEN {} ELSE {<<"big_scale_area_xor">>})
         \* the operands squeezed into |x| < 2^30 and moved to y < -2^30 on a grid of 2^-34 (big2, areas times 256): same areas
+        \* the operands moved by (-6, -6) on a grid of 2^-29 (scaled coordinates between 2^30 and 2^32 in magnitude): same areas
+        \cup (IF "big3" \notin DOMAIN ev THEN {}
+              ELSE (IF ev.big3_err = 0 THEN {} ELSE {<<"big_scale_mid_range_error_code">>})
+                   \cup {<<"big_scale_mid_range_area_differs", k>> : k \in {i \in 1..4 : Abs(ev.big3[i] - ev.big[i]) > 2}})
         \cup (IF "big2" \notin DOMAIN ev THEN {}
               ELSE (IF ev.big2_err = 0 THEN {} ELSE {<<"big_scale_negative_y_error_code">>})
                    \cup {<<"big_scale_negative_y_area_differs", k>> : k \in {i \in 1..4 : Abs(ev.big2[i] - ev.big[i]) > 40}})
